@@ -51,9 +51,14 @@ def nseg(length):
 
 
 class _Req:
-    def __init__(self, start, length):
+    """What the simulator's status-block responder reads from a received request (a fresh client's handshake numbers
+    its full-block request 4)."""
+
+    def __init__(self, start, length, sequence=4):
         self.start = start
         self.length = length
+        self.sequence = sequence
+        self._sequence = sequence
 
 
 def _decode_statv(data):
